@@ -254,13 +254,13 @@ package jmespath
 // panicking and to write nothing.
 
 //@ func tokType.String
-//@   trusted generated by stringer; result only used in error-message text
+//@   props C05
 //@   assigns \nothing
 //@ func astNodeType.String
-//@   trusted generated by stringer; result only used in error-message text
+//@   props C05
 //@   assigns \nothing
 //@ func token.String
-//@   trusted fmt.Sprintf over the token fields; result only used in error-message text
+//@   props C05
 //@   assigns \nothing
 
 // ---------------------------------------------------------------------------
